@@ -133,10 +133,17 @@ class C08(Engine):
             k = rng.randrange(2, 6)
             tree = {}
             argv = []
+            dn = core.derive_rng("c08.dirnames", self.seed, i)       # its own stream: the other draws stay what they were
+            odd = dn.random() < 0.2
             for j in range(k):
                 fid = nonfatal[rng.randrange(len(nonfatal))]
-                tree[f"d{j}"] = {P.files[fid]["name"]: "@" + fid}
-                argv.append(f"d{j}/{P.files[fid]['name']}")
+                d = f"d{j}"
+                if odd and dn.random() < 0.6:
+                    # directory names as old checkouts and archives have them: not valid UTF-8 (one raw byte, a lone surrogate
+                    # in Python's str), non-ASCII, blanks, quotes, backslashes - the JSON output carries the full path
+                    d = dn.choice(["caf\udce9", "d\u00edr\u4e16", "a b", "q\"uote", "back\\slash", "tab\there", "\udcff\udcfe"]) + str(j)
+                tree[d] = {P.files[fid]["name"]: "@" + fid}
+                argv.append(f"{d}/{P.files[fid]['name']}")
             # the same source reached twice in one run: repeated path, another spelling, a directory plus a file in it
             r = rng.random()
             if r < 0.2:
@@ -144,7 +151,7 @@ class C08(Engine):
             elif r < 0.3:
                 argv.append("./" + argv[rng.randrange(len(argv))])
             elif r < 0.4:
-                argv.insert(rng.randrange(len(argv) + 1), f"d{rng.randrange(k)}")
+                argv.insert(rng.randrange(len(argv) + 1), argv[rng.randrange(k)].rsplit("/", 1)[0])
             if rng.random() < 0.2:
                 # a source reached through a symbolic link whose name differs from its target
                 j = rng.randrange(len(argv))
@@ -374,6 +381,9 @@ class C08(Engine):
             return vs
         out = o.get("stdout", "")
         try:
+            # valid JSON is a sequence of Unicode characters exchanged as UTF-8: a document holding a lone surrogate unescaped
+            # (what Python makes of an undecodable byte of a path) cannot be written to a UTF-8 stdout at all
+            out.encode("utf-8")
             doc = json.loads(out)
         except Exception as e:  # noqa
             vs.append(Violation(self.prop, "C08.W3-json-equals-human", "stdout of the -f json run is not one valid JSON document",
